@@ -124,6 +124,15 @@ FirstDegen(q) == {[m |-> "A", bb |-> <<376, 392, 376, 400>>, t |-> "c"], [m |-> 
 DegenMoves(q) == {R(3, 0, B, B, "c"), R(3, 0 - 4, B, B, "c"), R(0, 0, B, B, "c"), R(3, 0, 0, B, "c"), R(3, 4, B, 0, "c"),
                   D(3, 0, B, B, "c"), D(3, 0 - 3, 0, B, "c")}
 ParamsDegen == {Default(FALSE), Default(TRUE), [Default(FALSE) EXCEPT !.bf = None]}
+\* ------------------------------------------------------------------ word spaces in front of glyphs wider than tall
+\* (taller than wide in vertical lines, by transposition): gaps around BOTH word_margin * width and word_margin * height,
+\* so that "relative to the larger of width and height" is told from "relative to the height / size / width"
+FirstWide(q) == {[m |-> "A", bb |-> <<376, 392, 384, 400>>, t |-> "c"], [m |-> "A", bb |-> <<368, 392, 384, 400>>, t |-> "c"]}
+WideMoves(q) == {R(g, 0, w, B, "c") : g \in Around(T(q.wm, 2 * B)) \cup Around(T(q.wm, B)), w \in {B, 2 * B}}
+                \cup {R(g, 0, 3 * B, 12, "c") : g \in Around(T(q.wm, 3 * B)) \cup Around(T(q.wm, 12))}
+WideMovesQ(q) == {R(g, 0, w, B, "c") : g \in Around(T(q.wm, 2 * B)) \cup Around(T(q.wm, B)), w \in {B, 2 * B}}
+ParamsWideQ == {PR(<<1, 2>>, <<2, 1>>, wm, <<1, 2>>, <<1, 2>>, dv, FALSE) : wm \in {<<1, 2>>, <<1, 10>>}, dv \in BOOLEAN}
+ParamsWide == {PR(<<1, 2>>, <<2, 1>>, wm, <<1, 2>>, <<1, 2>>, dv, FALSE) : wm \in {<<1, 8>>, <<1, 2>>, <<1, 10>>, <<3, 4>>}, dv \in BOOLEAN}
 NoDev == {}
 PageOnly == {"page"}
 PageAndFigure == {"page", "figure"}
